@@ -25,6 +25,10 @@ def generate(seed, tier):
     g = Gen(seed)
     name, mod = g.pick(FAMILIES)
     sub = mod.generate(g.int(0, 1 << 60), tier)
+    for _ in range(8):
+        if not sub.get('race'):
+            break
+        sub = mod.generate(g.int(0, 1 << 60), tier)      # multi-actor families are schedules (C06 decides those per implementation), not pairs
     scn = copy.deepcopy(sub['scn'])
     extra = {}
     if name == 'C11':
@@ -69,6 +73,8 @@ def generate(seed, tier):
     for op in scn['actors'][0] + scn.get('post', []):
         if op['op'] == 'push' and not op.get('mtime'):
             op['mtime'] = 4321      # 'now' is not comparable between two runs
+    # sync-only scenario elements (a second device object run from inside the session) have no async counterpart
+    scn['actors'][0] = [op for op in scn['actors'][0] if op['op'] not in ('ghost', 'ghost_resume')]
     for op in scn['actors'][0]:
         if op.get('cb') == 'reenter':
             op['cb'] = 'count'      # the re-entrant callback is a sync-only scenario (a plain function cannot await)
